@@ -32,9 +32,10 @@ func inList(ss []string, k string) bool {
 }
 
 func runC17(w *W) {
+	perturbCache = true
 	sweepDays(w, "C17", func(d *Day, prev *Day) {
 		t0 := tbTimes[d.J%len(tbTimes)]
-		l := d.At(t0.h, t0.m, t0.s).GetLunar()
+		l := lunarP(d.At(t0.h, t0.m, t0.s), d.J)
 		ly, lm, ld := l.GetYear(), l.GetMonth(), l.GetDay()
 		where := fmt.Sprintf("%s (%s)", d.Ymd, lunarYmd(l))
 		tao, foto := l.GetTao(), l.GetFoto()
